@@ -54,6 +54,7 @@ should produce the following output:
 		var treechan <-chan tree.Trees
 		var ok bool
 		var tips map[string]bool
+		var tipstmp []string
 
 		if intree2file == "none" && tipfile == "none" {
 			err = errors.New("At least a compare tree file or a tip list file must be provided with -c or -f")
@@ -81,7 +82,6 @@ should produce the following output:
 		} else {
 			//We compare with a tip list
 			tips = make(map[string]bool)
-			var tipstmp []string
 			if tipstmp, err = parseTipsFile(tipfile); err != nil {
 				io.LogError(err)
 				return
@@ -138,7 +138,12 @@ should produce the following output:
 				}
 			}
 
-			for k := range tips {
+			// In the order of the tip file (each name once), not in map iteration order
+			for _, k := range tipstmp {
+				if !tips[k] {
+					continue
+				}
+				tips[k] = false
 				if ok, err = refTree.ExistsTip(k); err != nil {
 					io.LogError(err)
 					return
